@@ -914,3 +914,192 @@ Lemma c14_ex_formulas :
     = Ret (Arr KFloat [2]%nat [(55,0); (66,0)]) /\
   eval_expr true exact_inv no_spow (EArr [v12; EArr [EVal (Num KFloat (zi 3))]]) = Raise ERagged.
 Proof. vm_compute. repeat split; reflexivity. Qed.
+
+(* ------------------------------------------------------------------ formula trees *)
+Section ExprInd.
+  Variable P : expr -> Prop.
+  Hypothesis Hval : forall v, P (EVal v).
+  Hypothesis Harr : forall items, Forall P items -> P (EArr items).
+  Hypothesis Hneg : forall k e, P e -> P (ENeg k e).
+  Hypothesis Hpow : forall items, Forall (opt_pred P) items -> P (EPow items).
+  Hypothesis Hprod : forall first rest, P first -> Forall (fun p => P (snd p)) rest -> P (EProd first rest).
+  Hypothesis Hsum : forall first rest, P first -> Forall (fun p => P (snd p)) rest -> P (ESum first rest).
+  Hypothesis Hpar : forall e, P e -> P (EParen e).
+
+  Fixpoint expr_ind' (e : expr) : P e :=
+    match e with
+    | EVal v => Hval v
+    | EArr items =>
+        Harr items ((fix go (l : list expr) : Forall P l :=
+                       match l with [] => Forall_nil _ | x :: r => Forall_cons x (expr_ind' x) (go r) end) items)
+    | ENeg k e' => Hneg k e' (expr_ind' e')
+    | EPow items =>
+        Hpow items ((fix go (l : list (option expr)) : Forall (opt_pred P) l :=
+                       match l with
+                       | [] => Forall_nil _
+                       | None :: r => Forall_cons None (OP_none P) (go r)
+                       | Some x :: r => Forall_cons (Some x) (OP_some P x (expr_ind' x)) (go r)
+                       end) items)
+    | EProd first rest =>
+        Hprod first rest (expr_ind' first)
+          ((fix go (l : list (bool * expr)) : Forall (fun p => P (snd p)) l :=
+              match l with [] => Forall_nil _ | (o, x) :: r => Forall_cons (o, x) (expr_ind' x) (go r) end) rest)
+    | ESum first rest =>
+        Hsum first rest (expr_ind' first)
+          ((fix go (l : list (bool * expr)) : Forall (fun p => P (snd p)) l :=
+              match l with [] => Forall_nil _ | (o, x) :: r => Forall_cons (o, x) (expr_ind' x) (go r) end) rest)
+    | EParen e' => Hpar e' (expr_ind' e')
+    end.
+End ExprInd.
+
+Lemma mapM_inl : forall {A B} (f : A -> B + err) l vs, mapM f l = inl vs -> Forall2 (fun x v => f x = inl v) l vs.
+Proof.
+  intros A B f. induction l as [|x l IH]; intros vs H; simpl in H.
+  - injection H as <-. constructor.
+  - destruct (f x) as [v|e] eqn:E; [|discriminate].
+    destruct (mapM f l) as [vs'|e] eqn:E'; [|discriminate]. injection H as <-.
+    constructor; auto.
+Qed.
+
+Lemma Forall2_len : forall {A B} (R : A -> B -> Prop) l1 l2, Forall2 R l1 l2 -> length l1 = length l2.
+Proof. intros A B R l1 l2 H. induction H; simpl; auto. Qed.
+
+Lemma neg_val_proper : forall v, proper v -> proper (neg_val v).
+Proof. intros [k c | k sh d] H; simpl in *; auto. rewrite map_length. exact H. Qed.
+
+Section Trees.
+  Variable negpow : bool.
+  Variable inv : inv_oracle.
+  Variable spow : spow_oracle.
+  Hypothesis spow_num : spow_numeric spow.
+
+  Local Notation bop := (py_binop negpow inv spow).
+
+  Lemma pow_proper : forall a b r, proper a -> proper b -> bop Pow a b = Ret r -> proper r.
+  Proof.
+    intros a b r Ha Hb H.
+    destruct a as [ka ca | ka sa da] eqn:Ea; destruct b as [kb cb | kb sb db] eqn:Eb;
+      try (subst; eapply proper_closed; [| | | exact H]; simpl; auto; fail).
+    simpl in H. destruct (spow_num _ _ _ _ _ H) as [k [c ->]]. exact I.
+  Qed.
+
+  Lemma power_loop_sound : forall rest res r,
+    proper res -> Forall (opt_pred proper) rest ->
+    power_loop negpow inv spow rest res = Ret r ->
+    la_power_loop negpow inv spow rest res r /\ proper r.
+  Proof.
+    induction rest as [|[w|] rest IH]; intros res r Hres Hrest H; simpl in H.
+    - inv_ret H. split; [constructor | exact Hres].
+    - inversion Hrest as [|? ? Hw Hrest']; subst. inversion Hw; subst.
+      destruct (bop Pow w res) as [mid|] eqn:E; simpl in H; [|discriminate].
+      assert (proper mid) as Hm by (eapply pow_proper; [| | exact E]; auto).
+      destruct (IH mid r Hm Hrest' H) as [Hc Hp]. split; auto.
+      econstructor; [|exact Hc]. apply operator_sound; auto.
+    - inversion Hrest as [|? ? _ Hrest']; subst.
+      destruct (IH (neg_val res) r (neg_val_proper _ Hres) Hrest' H) as [Hc Hp]. split; auto. constructor. exact Hc.
+  Qed.
+
+  Lemma eval_power_sound : forall items r,
+    Forall (opt_pred proper) items -> eval_power negpow inv spow items = Ret r ->
+    la_power negpow inv spow items r /\ proper r.
+  Proof.
+    intros items r Hi H. unfold eval_power in H. unfold la_power.
+    apply Forall_rev in Hi. destruct (rev items) as [|[last|] rest]; try discriminate.
+    inversion Hi as [|? ? Hl Hr]; subst. inversion Hl; subst.
+    apply power_loop_sound; auto.
+  Qed.
+
+  Lemma eval_negation_sound : forall k v r,
+    proper v -> eval_negation negpow inv spow k v = Ret r ->
+    la_value negpow inv spow Mul v (Num KInt (if Nat.even k then c1 else cneg c1)) r /\ proper r.
+  Proof.
+    intros k v r Hv H. unfold eval_negation in H. split.
+    - apply operator_sound; simpl; auto.
+    - eapply proper_closed_arith; [| | | exact H]; simpl; auto. discriminate.
+  Qed.
+
+  Lemma eval_array_proper : forall items r,
+    (2 <= length items)%nat -> Forall proper items -> eval_array items = Ret r -> proper r.
+  Proof.
+    intros items r Hlen Hp H. unfold eval_array in H.
+    destruct items as [|v items]; [discriminate|].
+    destruct v as [kv cv | kv sh dv].
+    - destruct (all_nums (Num kv cv :: items)) as [[k d]|] eqn:E; inv_ret H.
+      destruct (all_nums_spec _ _ _ E) as [Hl _]. simpl in *. split; lia.
+    - destruct (all_arrs sh (Arr kv sh dv :: items)) as [[k d]|] eqn:E; inv_ret H.
+      destruct (all_arrs_spec _ _ _ _ E) as [_ Hl].
+      assert (Forall (fun v => match v with Arr _ s dv0 => length dv0 = sprod s | _ => True end) (Arr kv sh dv :: items)) as W.
+      { eapply Forall_impl; [|exact Hp]. intros [? ?|? ? ?] Q; simpl in *; auto. destruct Q; auto. }
+      specialize (Hl W). inversion Hp as [|? ? Hfirst _]; subst. simpl in Hfirst. destruct Hfirst as [_ Hs].
+      simpl in *. split; [lia | nia].
+  Qed.
+
+  Definition tree_ok (e : expr) : Prop :=
+    forall r, wf_expr e -> eval_expr negpow inv spow e = Ret r -> la_eval negpow inv spow e r /\ proper r.
+
+  Lemma ops_sound : forall rest vs,
+    Forall (fun p => tree_ok (snd p)) rest -> Forall (fun p => wf_expr (snd p)) rest ->
+    mapM (op_item (eval_expr negpow inv spow)) rest = inl vs ->
+    Forall2 (fun p q => fst p = fst q /\ la_eval negpow inv spow (snd p) (snd q)) rest vs /\
+    Forall (fun q => proper (snd q)) vs.
+  Proof.
+    intros rest vs Hok Hwf H. apply mapM_inl in H.
+    induction H as [|[o x] [o' v] rest vs Hx H IH]; [split; constructor|].
+    inversion Hok as [|? ? Hk Hok']; subst. inversion Hwf as [|? ? Hw Hwf']; subst. simpl in *.
+    unfold op_item in Hx. simpl in Hx. destruct (eval_expr negpow inv spow x) as [v0|] eqn:E; [|discriminate].
+    injection Hx as <- <-. destruct (Hk v0 Hw ltac:(first [exact E | reflexivity])) as [Hl Hp]. destruct (IH Hok' Hwf') as [H1 H2].
+    split; constructor; auto.
+  Qed.
+
+  (* every formula tree inside the quantifier: if evaluation returns, every operator application on the way was a
+     linear-algebra step (la_eval), and the result is again a proper value *)
+  Theorem eval_expr_sound : forall e, tree_ok e.
+  Proof.
+    apply expr_ind'; unfold tree_ok.
+    - intros v r Hwf H. simpl in H. inv_ret H. inversion Hwf; subst. split; [constructor | assumption].
+    - intros items IH r Hwf H. inversion Hwf as [| | |? Hlen Hw| | |]; subst. simpl in H.
+      destruct (mapM (arg_item (eval_expr negpow inv spow)) items) as [vs|] eqn:E; [|discriminate].
+      apply mapM_inl in E.
+      assert (Forall2 (la_eval negpow inv spow) items vs /\ Forall proper vs) as [F2 Fp].
+      { clear H Hlen Hwf. induction E as [|x v items vs Hx E IHE]; [split; constructor|].
+        inversion IH as [|? ? Hk IH']; subst. inversion Hw as [|? ? Hwx Hw']; subst.
+        unfold arg_item, lift in Hx. destruct (eval_expr negpow inv spow x) as [v0|] eqn:Ex; [|discriminate].
+        injection Hx as <-. destruct (Hk v0 Hwx ltac:(first [exact Ex | reflexivity])) as [Hl Hp]. destruct (IHE IH' Hw') as [H1 H2].
+        split; constructor; auto. }
+      split; [econstructor; eauto|].
+      eapply eval_array_proper; [| exact Fp | exact H].
+      rewrite <- (Forall2_len _ _ _ F2). exact Hlen.
+    - intros k e IH r Hwf H. inversion Hwf; subst. simpl in H.
+      destruct (eval_expr negpow inv spow e) as [v|] eqn:E; simpl in H; [|discriminate].
+      destruct (IH v H1 ltac:(first [exact E | reflexivity])) as [Hl Hp]. destruct (eval_negation_sound k v r Hp H) as [Hv Hr].
+      split; [econstructor; eauto | exact Hr].
+    - intros items IH r Hwf H. inversion Hwf as [| | | |? Hw| |]; subst. simpl in H.
+      destruct (mapM (pow_item (eval_expr negpow inv spow)) items) as [vs|] eqn:E; [|discriminate].
+      apply mapM_inl in E.
+      assert (Forall2 (opt_rel (la_eval negpow inv spow)) items vs /\ Forall (opt_pred proper) vs) as [F2 Fp].
+      { clear H Hwf. induction E as [|o w items vs Hx E IHE]; [split; constructor|].
+        inversion IH as [|? ? Hk IH']; subst. inversion Hw as [|? ? Hwx Hw']; subst.
+        destruct (IHE IH' Hw') as [H1 H2].
+        destruct o as [x|]; simpl in Hx.
+        - destruct (eval_expr negpow inv spow x) as [v0|] eqn:Ex; [|discriminate]. injection Hx as <-.
+          inversion Hk as [|? Hkx]; subst. inversion Hwx as [|? Hwxx]; subst.
+          destruct (Hkx v0 Hwxx ltac:(first [exact Ex | reflexivity])) as [Hl Hp].
+          split; constructor; auto; constructor; auto.
+        - injection Hx as <-. split; constructor; auto; constructor. }
+      destruct (eval_power_sound vs r Fp H) as [Hl Hp]. split; [econstructor; eauto | exact Hp].
+    - intros first rest IHf IHr r Hwf H. inversion Hwf as [| | | | |? ? Hwf1 Hwr|]; subst. simpl in H.
+      destruct (eval_expr negpow inv spow first) as [f|] eqn:E; simpl in H; [|discriminate].
+      destruct (mapM (op_item (eval_expr negpow inv spow)) rest) as [vs|] eqn:E'; [|discriminate].
+      destruct (IHf f Hwf1 ltac:(first [exact E | reflexivity])) as [Hlf Hpf]. destruct (ops_sound rest vs IHr Hwr E') as [F2 Fp].
+      destruct (eval_product_sound negpow inv spow vs f r Hpf Fp H) as [Hc Hp].
+      split; [econstructor; eauto | exact Hp].
+    - intros first rest IHf IHr r Hwf H. inversion Hwf as [| | | | | |? ? Hwf1 Hwr]; subst. simpl in H.
+      destruct (eval_expr negpow inv spow first) as [f|] eqn:E; simpl in H; [|discriminate].
+      destruct (mapM (op_item (eval_expr negpow inv spow)) rest) as [vs|] eqn:E'; [|discriminate].
+      destruct (IHf f Hwf1 ltac:(first [exact E | reflexivity])) as [Hlf Hpf]. destruct (ops_sound rest vs IHr Hwr E') as [F2 Fp].
+      destruct (eval_sum_sound negpow inv spow vs f r Hpf Fp H) as [Hc Hp].
+      split; [econstructor; eauto | exact Hp].
+    - intros e IH r Hwf H. inversion Hwf; subst. simpl in H. destruct (IH r H1 H) as [Hl Hp].
+      split; [constructor; exact Hl | exact Hp].
+  Qed.
+End Trees.
